@@ -33,6 +33,7 @@ const (
 	Unbound     = "unbound-name"
 	MisuseSelf  = "misuse-self"
 	CutBody     = "cut-body"
+	TopCycle    = "toplevel-cycle" // top-level processes that use each other in a cycle
 	MissingAnn  = "missing-annotation"
 	IllType     = "ill-formed-type"
 	Polarity    = "polarity"
@@ -1080,6 +1081,37 @@ func Program(p *ast.Program, topLevelIndependence bool) (Verdict, *Checker) {
 		ck.Judgements = append(ck.Judgements, j)
 		if e := ck.check(c, prov{ty: pi.ty}, pi.body, where); e != nil {
 			return fail(where, e)
+		}
+	}
+	// a configuration is a forest: the uses-relation between top-level processes has no cycle
+	// (each would wait for the other for ever); checked last, so that it is reported only for
+	// programs that are otherwise well typed
+	state := map[*procInfo]int{}
+	var cyc func(pi *procInfo) *procInfo
+	cyc = func(pi *procInfo) *procInfo {
+		state[pi] = 1
+		for _, n := range FreeNames(pi.body) {
+			q := provOf[n]
+			if q == nil || q == pi {
+				continue
+			}
+			if state[q] == 1 {
+				return q
+			}
+			if state[q] == 0 {
+				if r := cyc(q); r != nil {
+					return r
+				}
+			}
+		}
+		state[pi] = 2
+		return nil
+	}
+	for _, pi := range procs {
+		if state[pi] == 0 {
+			if q := cyc(pi); q != nil {
+				return fail("prc["+q.names[0]+"]", reject(TopCycle, "process %s takes part in a cycle of top-level processes that use each other", q.names[0]))
+			}
 		}
 	}
 	return Verdict{Accept: true}, ck
